@@ -427,3 +427,21 @@ def no_object_is_shared_between_runs_through_a_default(ctx):
                     % (fi.qualname, pname, how, pname), fi, node)
         if not found:
             ctx.ok(mname + '#defaults', '%d functions: no default object is kept, mutated or handed on' % len(m.funcs), next(iter(m.funcs.values())), m.tree)
+
+
+@rule('C07.l', min_instances=2)
+def both_modes_give_members_the_ensembles_objective(ctx):
+    """a configured nested solver INSTANCE carries no objective of its own; run-to-completion mode (_Solve) hands such a member the ensemble's decorated objective (cost = self._bootstrap_objective(...); solver.SetObjective(cost, ...) when the member has none).  Step-wise mode must do the same: the objective its _step closure passes to solver.Step is bound from self._bootstrap_objective(...) too - handing on its own `cost` parameter (None when Solve(step=True) drives it) leaves the member without an objective"""
+    E = 'mystic.abstract_ensemble_solver:AbstractEnsembleSolver'
+    for meth, inner, run in (('_Solve', '_solve', None), ('_Step', '_step', 'Step')):
+        f = ctx.func('%s.%s' % (E, meth))
+        g = ctx.func('%s.%s.%s' % (E, meth, inner))
+        sn = selfname_of(f)
+        boot = [s for s in f.node.body if isinstance(s, ast.Assign) and len(s.targets) == 1 and isinstance(s.targets[0], ast.Name)
+                and isinstance(s.value, ast.Call) and self_call(s.value, '_bootstrap_objective', sn)]
+        used = set(n.id for n in ast.walk(g.node) if isinstance(n, ast.Name) and isinstance(n.ctx, ast.Load))
+        params = set(a.arg for a in g.node.args.args)
+        bound = [s.targets[0].id for s in boot if s.targets[0].id in used and s.targets[0].id not in params]
+        ctx.check(bool(bound), 'AbstractEnsembleSolver.%s.%s#objective' % (meth, inner), 'the objective a member receives is bound from self._bootstrap_objective(...) in %s' % meth,
+                  'in %s the members are driven with the method\'s own `cost` argument, not with self._bootstrap_objective(...): a configured nested solver instance (which has no objective of its own) gets None in step-wise mode and raises, while run-to-completion mode works' % meth,
+                  f, g.node, statement='member objective not bootstrapped in %s' % meth)
